@@ -157,7 +157,9 @@ COQ_TYPE = {GRID2: 'list (list Z)', ACELL: 'cell', ANB: 'NB', TNAT: 'nat', CELLL
 OPTZLIST, RULEFORM, SCHEME = 'optzlist', 'ruleform', 'scheme'
 BIT, BITS, BITINT = 'bit', 'bits', 'bitint'
 MATRIX = 'matrix'
-COQ_TYPE.update({MATRIX: 'list (list Z)', BIT: 'bool', BITS: 'list bool', BITINT: 'bool', 'list:bitint': 'list bool', OPTZLIST: 'option (list Z)', RULEFORM: 'rule_form', SCHEME: 'scheme', STATE: 'S'})
+ARRVIEW, DIGITS, DIGIT = 'arrview', 'digits', 'digit'
+ROWS = 'list:zlist'            # a Python list (or array) of rows
+COQ_TYPE.update({DIGITS: 'list N', DIGIT: 'N', MATRIX: 'list (list Z)', BIT: 'bool', BITS: 'list bool', BITINT: 'bool', 'list:bitint': 'list bool', OPTZLIST: 'option (list Z)', RULEFORM: 'rule_form', SCHEME: 'scheme', STATE: 'S'})
 
 
 def elem_type(ty):
@@ -172,6 +174,8 @@ def elem_type(ty):
         return CFG
     if ty == BITS:
         return BIT
+    if ty == DIGITS:
+        return DIGIT
     if isinstance(ty, str) and ty.startswith('list:'):
         return ty[5:]
     return None
@@ -228,8 +232,36 @@ CLASS_ATTRS = {
     'ReversibleRule': {'_rule_number': (NNUM, 'rule_number'), '_previous_state': (STORE, None)},
     # '*': written once, in __init__ (any expression: the translated method sees its value as a parameter);
     # '@m': written only by method m (not translated here: the translated method sees the current value)
+    'TotalisticRule': {'_k': (NNUM, 'k'), '_rule': (NNUM, 'rule')},
     'HopfieldNet': {'_r': (Z, '*'), '_W': (MATRIX, '@train')},
 }
+
+def _apen_phi_stmt(fn, name):
+    """the single assignment `name = ...` in the body of apen.phi (fn is phi); also checks that the enclosing
+    conventions hold: phi has the one parameter m"""
+    if [a.arg for a in fn.args.args] != ['m']:
+        raise TranslationError('phi does not have the single parameter m')
+    hits = [s for s in fn.body if isinstance(s, ast.Assign) and len(s.targets) == 1
+            and isinstance(s.targets[0], ast.Name) and s.targets[0].id == name]
+    if len(hits) != 1:
+        raise TranslationError('phi does not contain exactly one assignment to %s' % name)
+    return hits[0].value
+
+
+def _apen_locate_windows(fn):
+    return _apen_phi_stmt(fn, 'x')
+
+
+def _apen_locate_count(fn):
+    v = _apen_phi_stmt(fn, 'C')
+    # C = [<count> / (N - m + 1.0) for x_i in x]
+    if not (isinstance(v, ast.ListComp) and len(v.generators) == 1 and not v.generators[0].ifs
+            and isinstance(v.generators[0].target, ast.Name) and v.generators[0].target.id == 'x_i'
+            and isinstance(v.generators[0].iter, ast.Name) and v.generators[0].iter.id == 'x'
+            and isinstance(v.elt, ast.BinOp) and isinstance(v.elt.op, ast.Div)):
+        raise TranslationError('C is not [<count> / <float> for x_i in x]')
+    return v.elt.left
+
 
 TARGETS = [
     dict(name='game_of_life_rule', prop='C11', file='ca_functions2d.py', cls=None, func='game_of_life_rule',
@@ -263,6 +295,20 @@ TARGETS = [
          params=[('string', BITS)], attrs=[], effects=True),
     dict(name='cyclic_binary_derivative', prop='C18', file='bien.py', cls=None, func='cyclic_binary_derivative',
          params=[('string', BITS)], attrs=[], effects=True),
+    dict(name='totalistic_rule', prop='C08', file='ca_functions.py', cls=None, func='totalistic_rule',
+         params=[('neighbourhood', ARRVIEW), ('k', NNUM), ('rule', NNUM)], attrs=[], effects=True),
+    dict(name='totalistic_rule_call', prop='C08', file='ca_functions.py', cls='TotalisticRule', func='__call__',
+         params=[('n', ARRVIEW), ('c', UNUSED), ('t', UNUSED)], attrs=['_k', '_rule'], effects=True),
+    dict(name='apen_maximum_distance', prop='C19', file='apen.py', cls=None, func='apen',
+         nested=['maximum_distance'], params=[('x_i', ZLIST), ('x_j', ZLIST)], attrs=[], effects=True),
+    dict(name='apen_windows', prop='C19', file='apen.py', cls=None, func='apen', nested=['phi'],
+         locate=_apen_locate_windows, what='assigned to x', free=[('U', ZLIST), ('N', Z), ('m', Z)],
+         nonneg=['m'], params=[], attrs=[], effects=True),
+    dict(name='apen_count', prop='C19', file='apen.py', cls=None, func='apen', nested=['phi'],
+         locate=_apen_locate_count, what='<count> of C = [<count> / (N - m + 1.0) for x_i in x]',
+         free=[('x', GRID2), ('x_i', ZLIST), ('r', Z)], params=[], attrs=[], effects=True),
+    dict(name='hopfield_train', prop='C20', file='hopfield_net.py', cls='HopfieldNet', func='train',
+         params=[('P', ROWS)], attrs=[], effects=True, attr_locals={'_W': MATRIX}),
     dict(name='hopfield_rule', prop='C20', file='hopfield_net.py', cls='HopfieldNet', func='_rule',
          params=[('n', ZVEC), ('c', Z), ('t', UNUSED)], attrs=['_W', '_r'], effects=True),
     dict(name='async_current_cell_value_1d', prop='C12', file='ca_functions.py', cls='AsynchronousRule',
@@ -308,6 +354,38 @@ Definition src_is_none (o : option Z) : bool := match o with None => true | Some
 Definition src_index {A} (o : option A) : res A := match o with Some v => Ok v | None => Raise IndexError end.
 (* W[a, b] on a matrix (list of rows), NumPy indexing *)
 Definition src_mat_get (W : list (list Z)) (a b : Z) : res Z := bind (py_get W a) (fun row => py_get row b).
+(* W[a, b] = f(W[a, b]) on a matrix, NumPy indexing *)
+Fixpoint src_upd_nth {A} (l : list A) (k : nat) (f : A -> A) : list A :=
+  match l, k with
+  | [], _ => []
+  | x :: l', O => f x :: l'
+  | x :: l', S k' => x :: src_upd_nth l' k' f
+  end.
+Definition src_mat_upd (W : list (list Z)) (a b : Z) (f : Z -> Z) : res (list (list Z)) :=
+  match py_index (length W) a with
+  | None => Raise IndexError
+  | Some i => match nth_error W i with
+              | None => Raise IndexError
+              | Some row => match py_index (length row) b with
+                            | None => Raise IndexError
+                            | Some j => Ok (src_upd_nth W i (fun r => src_upd_nth r j f))
+                            end
+              end
+  end.
+(* max(l) on a list of ints: ValueError when it is empty *)
+Definition src_max_list (l : list Z) : res Z :=
+  match l with [] => Raise ValueError | x :: l' => Ok (fold_left Z.max l' x) end.
+(* comprehensions whose condition / element can raise: evaluated in order, the first exception wins *)
+Fixpoint src_filterm {A} (f : A -> res bool) (l : list A) : res (list A) :=
+  match l with
+  | [] => Ok []
+  | x :: l' => bind (f x) (fun b => bind (src_filterm f l') (fun r => Ok (if b then x :: r else r)))
+  end.
+Fixpoint src_mapm {A B} (f : A -> res B) (l : list A) : res (list B) :=
+  match l with
+  | [] => Ok []
+  | x :: l' => bind (f x) (fun y => bind (src_mapm f l') (fun r => Ok (y :: r)))
+  end.
 (* a loop whose body can raise, break or continue: the accumulator is threaded through the body *)
 Inductive src_ctl (A : Type) := Next (a : A) | Break (a : A).
 Arguments Next {A} a.
@@ -362,6 +440,9 @@ def _contains(stmts, kinds):
     return False
 
 
+_CUR_ATTR_LOCALS = {}     # during the translation of a target with `attr_locals`: attribute -> type
+
+
 def _assigned(stmts, grp=None):
     """local names assigned anywhere in the statements (in first-occurrence order); writes to the object state of
     a class group (attribute stores, calls of methods that write it) count as assignments to `st`"""
@@ -380,6 +461,11 @@ def _assigned(stmts, grp=None):
                     hit = True
                 if hit and 'st' not in out:
                     out.append('st')
+            if _CUR_ATTR_LOCALS and isinstance(n, (ast.Assign, ast.AugAssign)):
+                for t in (n.targets if isinstance(n, ast.Assign) else [n.target]):
+                    base = t.value if isinstance(t, ast.Subscript) else t
+                    if _is_self_attr(base) and base.attr in _CUR_ATTR_LOCALS and 'self' + base.attr not in out:
+                        out.append('self' + base.attr)
             if isinstance(n, ast.Assign):
                 tg = n.targets
             elif isinstance(n, ast.AugAssign):
@@ -409,7 +495,7 @@ def _names_in(node):
 
 
 def _check_ident(node, name):
-    if name in COQ_KEYWORDS or name in TEMPLATE_NAMES or name.startswith(('src_', 'self_', '_', 'r_')) \
+    if name in COQ_KEYWORDS or name in TEMPLATE_NAMES or name.startswith(('src_', 'self_', '_', 'r_', 'size_of_', 'sum_of_', 'py_')) \
             or not re.match(r'^[A-Za-z][A-Za-z0-9_]*$', name):
         _err(node, 'local name %r cannot be used as a Coq binder by this translator' % name)
     return name
@@ -426,6 +512,7 @@ class Env:
         self.nonneg = set()           # int locals known to be >= 0 (indices of range / enumerate)
         self.pylists = set()          # locals bound to Python lists (not ndarrays)
         self.loop_acc = None          # inside a loop translated with src_for: the text of its accumulator
+        self.alias = {}               # free locals of a fragment whose Python name is not usable in Coq: name -> py_name
 
     def copy(self):
         e = Env(self.fn)
@@ -436,6 +523,7 @@ class Env:
         e.nonneg = set(self.nonneg)
         e.pylists = set(self.pylists)
         e.loop_acc = self.loop_acc
+        e.alias = self.alias
         return e
 
 
@@ -540,7 +628,7 @@ class FunTrans:
             ty = env.vars[e.id]
             if ty == UNUSED:
                 _err(e, 'parameter %r is declared unused for this target but is read' % e.id)
-            return e.id, ty
+            return env.alias.get(e.id, e.id), ty
         if isinstance(e, ast.Attribute):
             return self.attribute(e, env)
         if isinstance(e, ast.UnaryOp):
@@ -628,6 +716,8 @@ class FunTrans:
                     _err(e, 'attribute self.%s may only be used through its idiom' % a)
                 return 'self' + a, ty
             _err(e, 'self.%s is not a declared attribute of this target' % a)
+        if isinstance(e.value, ast.Name) and env.vars.get(e.value.id) == ARRVIEW and e.attr == 'size':
+            return 'size_of_%s' % e.value.id, Z
         if isinstance(e.value, ast.Name) and env.vars.get(e.value.id) == ADD:
             if e.attr == 'cell_index':
                 return '(fst %s)' % e.value.id, CELL
@@ -658,6 +748,10 @@ class FunTrans:
             return '(%s %s %s)' % ('Z.modulo' if isinstance(e.op, ast.Mod) else 'Z.div', a, d), Z
         a, ta = self.expr(e.left, env)
         b, tb = self.expr(e.right, env)
+        if ta == NNUM:
+            a, ta = '(Z.of_N %s)' % a, Z      # a natural-number argument (rule number, number of colours) as an int
+        if tb == NNUM:
+            b, tb = '(Z.of_N %s)' % b, Z
         if isinstance(e.op, ast.Add) and elem_type(ta) is not None and elem_type(ta) == elem_type(tb) \
                 and ta not in (ADDS, HIST) and self.is_list_value(e.left, env) and self.is_list_value(e.right, env):
             return '(%s ++ %s)' % (a, b), (ZLIST if elem_type(ta) == Z else ta)
@@ -788,20 +882,48 @@ class FunTrans:
         inner.vars.update(newvars)
         inner.nonneg = set(env.nonneg) | set(nn)
         inner.noeffect = 1
+        try:
+            lst0 = lst
+            if g.ifs:
+                c, tc = self.expr(g.ifs[0], inner)
+                if tc != BOOL:
+                    _err(e, 'condition of a comprehension is not boolean')
+                lst0 = '(filter (fun %s => %s) %s)' % (pat, c, lst)
+            b, tb = self.expr(e.elt, inner)
+            return '(map (fun %s => %s) %s)' % (pat, b, lst0), list_of(tb)
+        except TranslationError as ex:
+            if 'that can raise inside a short-circuit position' not in str(ex) or not self.mode_effects_ok \
+                    or env.noeffect:
+                raise
+        # the condition or the element can raise: src_filterm / src_mapm evaluate them in order, first exception wins
+        inner = env.copy()
+        inner.vars.update(newvars)
+        inner.nonneg = set(env.nonneg) | set(nn)
+        inner.noeffect = 0
         if g.ifs:
             c, tc = self.expr(g.ifs[0], inner)
             if tc != BOOL:
                 _err(e, 'condition of a comprehension is not boolean')
-            lst = '(filter (fun %s => %s) %s)' % (pat, c, lst)
-        b, tb = self.expr(e.elt, inner)
+            cm = self.wrap_binds(inner, '(Ok %s)' % c)
+            lst = self.bind(env, e, 'src_filterm (fun %s =>\n%s) %s' % (pat, cm, lst))
+        inner2 = env.copy()
+        inner2.vars.update(newvars)
+        inner2.nonneg = set(env.nonneg) | set(nn)
+        inner2.noeffect = 0
+        b, tb = self.expr(e.elt, inner2)
+        if inner2.binds:
+            bm = self.wrap_binds(inner2, '(Ok %s)' % b)
+            return self.bind(env, e, 'src_mapm (fun %s =>\n%s) %s' % (pat, bm, lst)), list_of(tb)
         return '(map (fun %s => %s) %s)' % (pat, b, lst), list_of(tb)
 
     def subscript(self, e, env):
         if isinstance(e.slice, ast.Slice):
             return self.slice_expr(e, env)
         # self._W[a, b] on a matrix attribute: NumPy indexing (negative indices, IndexError)
-        if _is_self_attr(e.value) and self.attr_info.get(e.value.attr) == MATRIX and e.value.attr in self.t['attrs'] \
-                and isinstance(e.slice, ast.Tuple) and len(e.slice.elts) == 2:
+        al = self.t.get('attr_locals') or {}
+        if _is_self_attr(e.value) and isinstance(e.slice, ast.Tuple) and len(e.slice.elts) == 2 and (
+                (self.attr_info.get(e.value.attr) == MATRIX and e.value.attr in self.t['attrs']) or
+                (al.get(e.value.attr) == MATRIX and env.vars.get('self' + e.value.attr) == MATRIX)):
             (a, ta), (b, tb) = self.expr(e.slice.elts[0], env), self.expr(e.slice.elts[1], env)
             if ta != Z or tb != Z:
                 _err(e, 'matrix index that is not a pair of ints')
@@ -836,7 +958,12 @@ class FunTrans:
             if _is_int_const(i) and _is_int_const(j) and i.value in (0, 1, 2) and j.value in (0, 1, 2):
                 return '(src_nb %s %d %d)' % (e.value.value.id, i.value, j.value), Z
             _err(e, 'subscript of the 3x3 neighbourhood with indices that are not constants in 0..2')
-        if isinstance(e.value, ast.Name) and env.vars.get(e.value.id) in (ZLIST, BITS):
+        if isinstance(e.value, ast.Name) and env.vars.get(e.value.id) == ROWS and not isinstance(e.slice, ast.Tuple):
+            i, ti = self.expr(e.slice, env)
+            if ti != Z:
+                _err(e, 'index of a list of rows is not an int')
+            return self.bind(env, e, 'py_get %s %s' % (e.value.id, i)), ZLIST
+        if isinstance(e.value, ast.Name) and env.vars.get(e.value.id) in (ZLIST, BITS, DIGITS):
             i, ti = self.expr(e.slice, env)
             if ti != Z:
                 _err(e, 'index of a list is not an int')
@@ -871,12 +998,45 @@ class FunTrans:
 
     def call(self, e, env):
         f = e.func
-        if e.keywords:
+        # np.base_repr(rule, base=k).zfill(w): the model's base_repr (digit values, ValueError for a base outside
+        # 2..36) and zfill
+        if isinstance(f, ast.Attribute) and f.attr == 'zfill' and len(e.args) == 1 and not e.keywords \
+                and isinstance(f.value, ast.Call) and ast.unparse(f.value.func) == 'np.base_repr' \
+                and self.mod.imports_numpy_as_np and len(f.value.args) == 1 and len(f.value.keywords) == 1 \
+                and f.value.keywords[0].arg == 'base':
+            r, tr = self.expr(f.value.args[0], env)
+            k, tk = self.expr(f.value.keywords[0].value, env)
+            w, tw = self.expr(e.args[0], env)
+            if tr != NNUM or tk != NNUM or tw != Z:
+                _err(e, 'np.base_repr(..).zfill(..) on (%s, %s, %s)' % (tr, tk, tw))
+            d = self.bind(env, e, 'base_repr %s %s' % (r, k))
+            return '(zfill %s %s)' % (w, d), DIGITS
+        # int(ch, k) on one character of a digit string
+        if isinstance(f, ast.Name) and f.id == 'int' and len(e.args) == 2 and not e.keywords:
+            ch, tc = self.expr(e.args[0], env)
+            k, tk = self.expr(e.args[1], env)
+            if tc != DIGIT or tk != NNUM:
+                _err(e, 'int(.., base) on (%s, %s)' % (tc, tk))
+            return self.bind(env, e, 'int_base %s %s' % (ch, k)), NNUM
+        if e.keywords and not (isinstance(f, ast.Attribute) and isinstance(f.value, ast.Name) and f.value.id == 'np'
+                               and f.attr == 'zeros'):
             _err(e, 'keyword arguments are outside the subset')
         # np.sum(n) / np.any([...])
         if isinstance(f, ast.Attribute) and isinstance(f.value, ast.Name) and f.value.id == 'np':
             if not self.mod.imports_numpy_as_np:
                 _err(e, '`np` is not `import numpy as np` in this module')
+            if f.attr == 'zeros' and len(e.args) == 1 and isinstance(e.args[0], ast.Tuple) and len(e.args[0].elts) == 2 \
+                    and all(k.arg == 'dtype' for k in e.keywords):
+                dims = e.args[0].elts
+                if not all(self.is_nonneg(d, env) for d in dims):
+                    _err(e, 'np.zeros with a dimension that is not known to be >= 0')
+                (a, ta), (b, tb) = self.expr(dims[0], env), self.expr(dims[1], env)
+                if ta != Z or tb != Z:
+                    _err(e, 'np.zeros with non-int dimensions')
+                return '(repeat (repeat 0 (Z.to_nat %s)) (Z.to_nat %s))' % (b, a), MATRIX
+            if f.attr == 'sum' and len(e.args) == 1 and isinstance(e.args[0], ast.Name) \
+                    and env.vars.get(e.args[0].id) == ARRVIEW:
+                return 'sum_of_%s' % e.args[0].id, Z
             if f.attr == 'sum' and len(e.args) == 1 and isinstance(e.args[0], ast.Name) \
                     and env.vars.get(e.args[0].id) == NBHD:
                 return '(zsum (concat %s))' % e.args[0].id, Z
@@ -936,11 +1096,19 @@ class FunTrans:
         # f(args) where f is a translated module-level function of the same file
         if isinstance(f, ast.Name):
             callee = next((t for t in TARGETS if t['file'] == self.mod.fname and t.get('cls') is None
-                           and t['func'] == f.id and not t.get('inner')), None)
+                           and t['func'] == f.id and not t.get('inner') and not t.get('nested')
+                           and not t.get('locate')), None)
+            if callee is None and self.t.get('cls') is None:
+                # a closure defined in the same enclosing function
+                callee = next((t for t in TARGETS if t['file'] == self.mod.fname and t.get('cls') is None
+                               and t['func'] == self.t['func'] and t.get('nested') and not t.get('locate')
+                               and t['nested'][-1] == f.id and t['prop'] == self.t['prop']), None)
+                if callee is not None and f.id in env.vars:
+                    callee = None
             if callee is not None and callee['prop'] != self.t['prop']:
                 _err(e, '%s belongs to another property (%s): calls across properties are not translated' % (
                     f.id, callee['prop']))
-            if callee is not None and self.mod.has_function(f.id):
+            if callee is not None and (self.mod.has_function(f.id) or callee.get('nested')):
                 live = [(pn, pty) for pn, pty in callee['params']]
                 if len(e.args) != len(live):
                     _err(e, '%s called with %d arguments' % (f.id, len(e.args)))
@@ -949,7 +1117,9 @@ class FunTrans:
                     tx, ty = self.expr(x, env)
                     if ty != pty and not ({ty, pty} <= {ZLIST, ZVEC}):
                         _err(x, 'argument %s of %s has type %s, expected %s' % (pn, f.id, ty, pty))
-                    if pty != UNUSED:
+                    if pty == ARRVIEW:
+                        args.append('size_of_%s sum_of_%s' % (tx, tx))
+                    elif pty != UNUSED:
                         args.append(tx)
                 rr = self.mod.result_type(callee['name'])
                 if rr is None:
@@ -995,6 +1165,11 @@ class FunTrans:
             if ta != Z:
                 _err(e, 'abs of a non-int')
             return '(Z.abs %s)' % a, Z
+        if isinstance(f, ast.Name) and f.id == 'max' and len(e.args) == 1 and not e.keywords:
+            l, tl = self.expr(e.args[0], env)
+            if elem_type(tl) != Z:
+                _err(e, 'max of a value of type %s' % tl)
+            return self.bind(env, e, 'src_max_list %s' % l), Z          # ValueError on an empty list
         if isinstance(f, ast.Name) and f.id in ('max', 'min') and len(e.args) == 2:
             (a, ta), (b, tb) = self.expr(e.args[0], env), self.expr(e.args[1], env)
             if ta != Z or tb != Z:
@@ -1171,6 +1346,35 @@ class FunTrans:
                 self.mutating = True
                 return self.wrap_binds(env, self.let('st', '(src_%s_set%s st %s)' % (gname, tg.attr, v),
                                                      cont(env.copy())))
+        al = self.t.get('attr_locals') or {}
+        if al and isinstance(s, (ast.Assign, ast.AugAssign)):
+            tg = s.targets[0] if isinstance(s, ast.Assign) and len(s.targets) == 1 else getattr(s, 'target', None)
+            # self._W = np.zeros((a, b), dtype=..): the attribute becomes the local self_W of this translation
+            if isinstance(s, ast.Assign) and tg is not None and _is_self_attr(tg) and tg.attr in al:
+                v, tv = self.expr(s.value, env)
+                if tv != al[tg.attr]:
+                    _err(s, 'self.%s is assigned a value of type %s' % (tg.attr, tv))
+                env2 = env.copy()
+                env2.vars['self' + tg.attr] = tv
+                return self.wrap_binds(env, self.let('self' + tg.attr, v, cont(env2)))
+            # self._W[i, j] = e / self._W[i, j] += e: NumPy element write (negative indices, IndexError)
+            if tg is not None and isinstance(tg, ast.Subscript) and _is_self_attr(tg.value) and tg.value.attr in al \
+                    and al[tg.value.attr] == MATRIX and isinstance(tg.slice, ast.Tuple) and len(tg.slice.elts) == 2:
+                name = 'self' + tg.value.attr
+                if env.vars.get(name) != MATRIX:
+                    _err(s, 'element write to self.%s before it is assigned in this method' % tg.value.attr)
+                (i, ti), (j, tj) = self.expr(tg.slice.elts[0], env), self.expr(tg.slice.elts[1], env)
+                v, tv = self.expr(s.value, env)
+                if ti != Z or tj != Z or tv != Z:
+                    _err(s, 'matrix element write with non-int index or value')
+                if isinstance(s, ast.AugAssign):
+                    if not isinstance(s.op, (ast.Add, ast.Sub)):
+                        _err(s, 'augmented element write other than += / -=')
+                    fn = '(fun w_ => w_ %s %s)' % ('+' if isinstance(s.op, ast.Add) else '-', v)
+                else:
+                    fn = '(fun _ => %s)' % v
+                r = self.bind(env, s, 'src_mat_upd %s %s %s %s' % (name, i, j, fn))
+                return self.wrap_binds(env, self.let(name, r, cont(env.copy())))
         if isinstance(s, ast.Assign):
             if len(s.targets) != 1:
                 _err(s, 'multiple assignment targets')
@@ -1378,7 +1582,7 @@ class FunTrans:
         for w in W:
             if w not in env.vars:
                 _err(s, 'local %r is first assigned inside a branch (possibly undefined afterwards)' % w)
-            if env.vars[w] not in (Z, BOOL, OPTZ, STATE):
+            if env.vars[w] in (ADDS, DICT5, STORE, UNUSED):
                 _err(s, 'local %r of type %s assigned inside a branch' % (w, env.vars[w]))
         n0 = self.nbinds
         a = self.value_block(s.body, env, W)
@@ -1452,6 +1656,12 @@ class FunTrans:
             if et is None:
                 _err(it, 'enumerate over a value of type %s' % tl)
             return '(src_enumerate %s)' % l, pair_of(Z, et), True
+        if isinstance(it, ast.Call) and isinstance(it.func, ast.Name) and it.func.id == 'zip' and len(it.args) == 2 \
+                and not it.keywords:
+            (a, ta), (b, tb) = self.expr(it.args[0], env), self.expr(it.args[1], env)
+            if elem_type(ta) is None or elem_type(tb) is None:
+                _err(it, 'zip of values of type (%s, %s)' % (ta, tb))
+            return '(combine %s %s)' % (a, b), pair_of(elem_type(ta), elem_type(tb)), False
         l, tl = self.expr(it, env)
         et = elem_type(tl)
         if et is None or tl in (ADDS,):
@@ -1643,6 +1853,25 @@ class ModuleInfo:
         self.imports_numpy_as_np = any(
             isinstance(n, ast.Import) and any(a.name == 'numpy' and a.asname == 'np' for a in n.names)
             for n in self.tree.body)
+        if not self.imports_numpy_as_np:
+            # `from .sibling import *` where sibling.py does `import numpy as np` and defines no __all__
+            for n in self.tree.body:
+                if isinstance(n, ast.ImportFrom) and n.level == 1 and n.module and any(a.name == '*' for a in n.names):
+                    try:
+                        sib = ast.parse(open(os.path.join(repo, 'cellpylib', n.module + '.py')).read())
+                    except (OSError, SyntaxError):
+                        continue
+                    has_np = any(isinstance(m, ast.Import) and any(a.name == 'numpy' and a.asname == 'np' for a in m.names)
+                                 for m in sib.body)
+                    has_all = any(isinstance(m, ast.Assign) and any(isinstance(t, ast.Name) and t.id == '__all__'
+                                                                   for t in m.targets) for m in sib.body)
+                    shadow = any(isinstance(m, (ast.Assign, ast.FunctionDef, ast.ClassDef, ast.Import, ast.ImportFrom))
+                                 and m is not n and 'np' in ([t.id for t in getattr(m, 'targets', []) if isinstance(t, ast.Name)]
+                                                             + [getattr(m, 'name', '')]
+                                                             + [a.asname or a.name for a in getattr(m, 'names', [])])
+                                 for m in self.tree.body)
+                    if has_np and not has_all and not shadow:
+                        self.imports_numpy_as_np = True
         self.results = {}      # target name -> result type (of already translated targets)
 
     def has_function(self, name):
@@ -1787,10 +2016,51 @@ def _find_function(mod, target):
             raise TranslationError('%s is not `def %s(): def %s(...): ...; return %s`' % (
                 target['func'], target['func'], target['inner'], target['inner']))
         fn = body[0]
+    for name in target.get('nested', []):
+        # a function defined directly in the body of the enclosing one (a closure; its free variables must be
+        # declared as parameters of the target: reading any other name fails as unknown)
+        inner = [n for n in fn.body if isinstance(n, ast.FunctionDef) and n.name == name]
+        if len(inner) != 1:
+            raise TranslationError('nested function %s not found (or defined twice) in %s' % (name, fn.name))
+        # the name must not be re-bound anywhere else in the enclosing function
+        for n in ast.walk(fn):
+            if isinstance(n, ast.Name) and n.id == name and isinstance(n.ctx, ast.Store):
+                raise TranslationError('nested function %s is re-bound in %s' % (name, fn.name))
+        fn = inner[0]
     return None, fn
 
 
+def translate_fragment(mod, target):
+    """an EXPRESSION inside a function, as a function of its free locals.  target['locate'](fn) returns the
+    expression node after checking the statement shape around it (raises TranslationError otherwise);
+    target['free'] declares the free locals and their types (reading any other name fails as unknown)."""
+    _, fn = _find_function(mod, target)
+    node = target['locate'](fn)
+    ft = FunTrans(mod, target, None, {}, {})
+    ft.mode_effects_ok = target.get('effects', False)
+    env = Env(ft)
+    for p, ty in target['free']:
+        if p in TEMPLATE_NAMES and re.match(r'^[A-Za-z]+$', p):
+            env.alias[p] = 'py_' + p        # e.g. the Python local N is the Coq binder py_N
+        else:
+            _check_ident(fn, p)
+        env.vars[p] = ty
+        if ty == ROWS or p in target.get('pylists', []):
+            env.pylists.add(p)
+    env.nonneg = set(target.get('nonneg', []))
+    tx, ty = ft.expr(node, env)
+    body = ft.wrap_binds(env, ft.ret(ty, tx))
+    body, cty = ft.finish(body, node)
+    mod.results[target['name']] = (ft.rty, ft.effects)
+    return [dict(name=target['name'], params=[(env.alias.get(p, p), ty) for p, ty in target['free']], attrs=[],
+                 body=body, cty=cty,
+                 lo=node.lineno, hi=node.end_lineno, generic='', stateful=False,
+                 what='%s, the expression %s' % ('.'.join([target['func']] + target.get('nested', [])), target['what']))]
+
+
 def translate_target(mod, target):
+    if target.get('locate'):
+        return translate_fragment(mod, target)
     clsnode, fn = _find_function(mod, target)
     if fn.decorator_list:
         _err(fn, 'decorated function')
@@ -1818,9 +2088,21 @@ def translate_target(mod, target):
     for p, ty in target['params']:
         env.vars[_check_ident(fn, p)] = ty
 
+    global _CUR_ATTR_LOCALS
+    _CUR_ATTR_LOCALS = dict(target.get('attr_locals') or {})
+
     def falloff(env2):
+        out = [('self' + a) for a in _CUR_ATTR_LOCALS]
+        if out:
+            # a method without a return value that (re)builds an attribute: its result is that attribute
+            if len(out) != 1 or out[0] not in env2.vars:
+                _err(fn, 'self.%s may be unassigned at the end of the method' % out[0][4:])
+            return ft.ret(env2.vars[out[0]], out[0])
         return ft.ret('none', 'None')
-    body = ft.block(fn.body, env, falloff)
+    try:
+        body = ft.block(fn.body, env, falloff)
+    finally:
+        _CUR_ATTR_LOCALS = {}
     body, cty = ft.finish(body, fn)
     main = dict(name=target['name'], params=[(p, ty) for p, ty in target['params'] if ty != UNUSED],
                 attrs=[(at, attr_info[at]) for at in target['attrs'] if attr_info[at] not in ()],
@@ -1966,7 +2248,10 @@ def emit_def(mod, d):
     if d.get('stateful'):
         params.append('(st : S)')
     for p, ty in d['params']:
-        params.append('(%s : %s)' % (p, coq_type(ty)))
+        if ty == ARRVIEW:
+            params.append('(size_of_%s : Z) (sum_of_%s : Z)' % (p, p))     # the array is seen through .size and np.sum
+        else:
+            params.append('(%s : %s)' % (p, coq_type(ty)))
     head = '(* %s, cellpylib/%s\n%s *)' % (d['what'], mod.fname, _quote(mod, d['lo'], d['hi']))
     return '%s\nDefinition src_%s %s : %s :=\n%s.\n' % (head, d['name'], ' '.join(params), d['cty'], _indent(d['body']))
 
@@ -1994,6 +2279,9 @@ HEADER = ('(* GENERATED by harness/translate.py from the Python source of the ce
           'Import ListNotations.\nLocal Open Scope Z_scope.\n')
 
 
+PROP_IMPORTS = {'C08': 'From CPL Require Import Model.Totalistic.\n'}
+
+
 def build(only=None):
     """-> ({pid: text}, {pid: status}); `only`: translate the functions of that property alone"""
     repo = repo_dir()
@@ -2003,7 +2291,7 @@ def build(only=None):
         if only is not None and pid != only:
             continue
         status = {'repo': repo, 'property': pid, 'functions': {}, 'files': {}, 'errors': {}}
-        parts = [HEADER % pid]
+        parts = [HEADER % pid + PROP_IMPORTS.get(pid, '')]
         for t in [t for t in TARGETS if t['prop'] == pid] + [g for g in GROUPS if g['prop'] == pid]:
             isgrp = 'methods' in t
             try:
@@ -2077,7 +2365,9 @@ PROP_FUNS = {
     'C06': ['src_until_fixed_point_timesteps'],
     'C07': ['src_bits_to_int', 'src_int_to_bits', 'src_binary_rule'],
     'C18': ['src_binary_derivative', 'src_cyclic_binary_derivative'],
-    'C20': ['src_hopfield_rule'],
+    'C08': ['src_totalistic_rule', 'src_totalistic_rule_call'],
+    'C19': ['src_apen_maximum_distance', 'src_apen_windows', 'src_apen_count'],
+    'C20': ['src_hopfield_rule', 'src_hopfield_train'],
     'C12': ['src_async_call', 'src_async_current_cell_value_1d', 'src_async_current_cell_value_2d'],
 }
 EXTRA_DEPS = {'C15': ['GenProps/C15Tables.v']}      # what <pid>Src.v imports besides the equivalence file
